@@ -51,6 +51,7 @@ type Spec struct {
 	RefSibling     string // a keyword written NEXT TO the $ref on the referring node: "type" (the target's own type) or "description"
 	IntBounds      bool   // the numeric bounds are integers (fact on their atoms)
 	FracBounds     bool   // the numeric bounds are NOT integers (fact on their atoms)
+	RefVia         bool   // with Ref: the referrers point at an alias definition whose whole content is a $ref to this definition
 	DefSameAs      string // with Ref: the definition has the same NAME as the (earlier built) definition with this label (possibly in another file)
 	DefLabel       string // label under which this definition's name can be reused
 	RefRootOf      string // a reference to the root of another file: {"$ref": "<file>"}
@@ -684,6 +685,15 @@ func (b *builder) build(s *Spec, label string) gen.V {
 			prefix = "#/definitions/"
 		}
 		rs := absint.Cat(absint.Lit(prefix), s.defStr())
+		if s.RefVia {
+			// the referrers name a definition that is itself nothing but a reference to this one: {"$ref": "#/$defs/<alias>"},
+			// "$defs": {"<alias>": {"$ref": "#/$defs/<this>"}} — a reference is transparent, so is a chain of two
+			alias := g.M.NewAtom("RawStr", "name of the alias definition for "+label)
+			alias.NonEmpty = true
+			b.defKeys = append(b.defKeys, absint.HoleStr(alias))
+			b.defVals = append(b.defVals, g.Node(map[string]gen.V{"Ref": rs}))
+			rs = absint.Cat(absint.Lit(prefix), absint.HoleStr(alias))
+		}
 		s.built, s.refStr = b, &rs
 		rf := map[string]gen.V{"Ref": rs}
 		switch s.RefSibling {
